@@ -1,10 +1,10 @@
 SPECIFICATION Spec
 CONSTANTS
-  Groups = {"bidstrategy"}
-  Pinned = TRUE
+  Groups = {"dirk"}
+  Pinned = FALSE
   InPlace = FALSE
-  Reuse = FALSE
-  MaxPar = 2
+  Reuse = TRUE
+  MaxPar = 3
 INVARIANTS TypeOK Linearizable Disciplined
-CONSTRAINT Bounded
+CONSTRAINT ReuseProbe
 CHECK_DEADLOCK FALSE
